@@ -10,6 +10,10 @@ CLAIMED = {
              note="exact reals; phases as unit-circle pairs (integer-coefficient phase algebra); one-step covariance is compositional (operator covariance + kernel covariance + supercurrent invariance; LU solve is a function of its rhs); whole-run agreement of two runs from psi=1 under shifted A is not implied and not claimed", ref="5/C04"),
  "C10": dict(text="For fully symbolic histories of potentials (bounded length) the real set_link_exponents build+refresh path is compared entry-wise and pattern-wise with a fresh build, for no pinned sites / pinned terminals / pinning disabled; the real TDGLSolver.update is run with scripted symbolic potentials (with and without screening) and the operators are compared with a rebuild at every moment of use. Includes the sparse-matrix dtype (complex vs real) casting semantics.",
              note="history length <= 3 (+ induction on the refreshed state being a function of structure and last potential); scipy __setitem__ modelled (overwrite / insert / cast to matrix dtype); psi-update and Poisson solve opaque at step level", ref="5/C10"),
+ "C02": dict(text="The real per-site update kernel is executed symbolically; its own intermediate w, z are proven equal to the documented ones and then generalised to arbitrary complex W, Z, for which z3 decides: psi' + z|psi'|^2 = w, X = |psi'|^2 >= 0, quad-2, quad-root, physical branch, positive denominator, refusal <=> negative discriminant, 'solution exists => not refused'; the retry loop answers with the kernel's result for the time step it reports.",
+             note="exact reals; n <= 3 sites (per-site algebra is site independent); exp(-i mu dt) an arbitrary unit complex; opaque covariant Laplacian action; float rounding near disc = 0 and overflow outside", ref="5/C02"),
+ "C06": dict(text="Pinned rows are identity rows after build and after every in-place refresh, all other rows equal the unpinned operator, pinning disabled gives the unpinned operator; one inductive step of the real TDGLSolver.__init__/update/adaptive_euler_step/solve_for_psi_squared from an arbitrary state keeps psi = v on every terminal site for v = 0, symbolic |v| <= 1, and leaves terminal sites on the generic update for v = None.",
+             note="real device meshes bar2/bar3 with symbolic weights; one inductive step; Poisson solve opaque; exact reals", ref="5/C06"),
 }
 NA = {
 }
